@@ -14,6 +14,7 @@ CONSTANTS Kinds,        \* subset of {"global", "cfgrng", "pershot"}: which stre
           OtherSeeds,   \* seeds used by unrelated Configs / re-seeding
           Shots,        \* set of shot counts
           MaxOther,     \* bound on foreign actions
+          UnseededSeed, \* stands for the os.urandom seed of an unseeded Config
           Export
 
 VARIABLES kind, shots,
@@ -38,6 +39,15 @@ MkConfig(s) == /\ cfg' = Append(cfg, [seed |-> s, pos |-> 0])
 NewConfig == /\ st = "new" /\ MkConfig(Seed) /\ mycfg' = Len(cfg) + 1 /\ st' = "configured"
              /\ hist' = Append(hist, [a |-> "NewConfig", run |-> run, seed |-> Seed])
              /\ UNCHANGED <<kind, shots, run, out, nother>>
+(* the seed may also be given later through the public attribute: Config() then  config.seed_sequence = Seed ,  *)
+(* which re-creates the generator(s) of that Config (and re-seeds the global one)                              *)
+NewConfigUnseeded == /\ st = "new" /\ MkConfig(UnseededSeed) /\ mycfg' = Len(cfg) + 1 /\ st' = "unseeded"
+                     /\ hist' = Append(hist, [a |-> "NewConfigUnseeded", run |-> run, seed |-> 0])
+                     /\ UNCHANGED <<kind, shots, run, out, nother>>
+SetSeed == /\ st = "unseeded" /\ cfg' = [cfg EXCEPT ![mycfg] = [seed |-> Seed, pos |-> 0]] /\ g' = [seed |-> Seed, pos |-> 0]
+           /\ st' = "configured"
+           /\ hist' = Append(hist, [a |-> "SetSeed", run |-> run, seed |-> Seed])
+           /\ UNCHANGED <<kind, shots, run, mycfg, out, nother>>
 (* Simulator(config=c): config.copy() keeps the same generator object *)
 NewSim == /\ st = "configured" /\ st' = "ready"
           /\ hist' = Append(hist, [a |-> "NewSim", run |-> run, seed |-> 0])
@@ -69,7 +79,7 @@ Other == /\ nother < MaxOther /\ st \in {"configured", "ready"} /\ nother' = not
                                      /\ hist' = Append(hist, [a |-> "OtherConfig", run |-> run, seed |-> s])
          /\ UNCHANGED <<kind, shots, run, st, mycfg, out>>
 
-Next == NewConfig \/ NewSim \/ Exec \/ NextRun \/ Other
+Next == NewConfig \/ NewConfigUnseeded \/ SetSeed \/ NewSim \/ Exec \/ NextRun \/ Other
 Spec == Init /\ [][Next]_vars
 ------------------------------------------------------------------------------
 Finished == run = 2 /\ st = "done"
